@@ -616,6 +616,84 @@ fn generic_ord_key(gm: &crate::genmod::GMod) -> bool {
 
 /// generate `n` cases from tapes derived from `seed`
 pub fn make_cases(seed: u64, stream: u64, n: usize, cf_only: bool, encodings: usize) -> (Vec<ProbeCase>, BTreeMap<String, u64>) {
+    make_cases_ext(seed, stream, n, cf_only, encodings, false)
+}
+
+/// Standalone structs (C18): for every struct and every enum variant with fields of an item emitted
+/// without generics, the struct built through the composite API is injected into the root module; its
+/// checks are the payloads of valid encodings (for a variant: the encoding of an enum value of that
+/// variant minus the index byte).
+fn standalone(
+    reg: &PortableRegistry,
+    spec: &SettingsSpec,
+    out: &GenOut,
+    seed: u64,
+    encodings: usize,
+) -> Option<(String, Vec<(u32, String, Vec<Vec<u8>>)>)> {
+    use scale_info::TypeDef;
+    use scale_typegen::typegen::ir::type_ir::CompositeIR;
+    use scale_typegen::typegen::ir::ToTokensWithSettings;
+    use scale_typegen::typegen::type_params::TypeParameters;
+    let settings = spec.build();
+    let mut items = String::new();
+    let mut checks = vec![];
+    let build = |name: &str, fields: &[scale_info::Field<scale_info::form::PortableForm>]| -> Option<String> {
+        guard(|| {
+            let g = scale_typegen::TypeGenerator::new(reg, &settings);
+            let mut tp = TypeParameters::from_scale_info(&[]);
+            let kind = g.create_composite_ir_kind(fields, &mut tp).ok()?;
+            let ident: proc_macro2::Ident = syn::parse_str(name).ok()?;
+            let comp = CompositeIR::new(ident, kind, Default::default());
+            Some(g.upcast_composite(&comp).to_token_stream(&settings).to_string())
+        })
+        .ok()
+        .flatten()
+    };
+    for (path, kept_id) in &out.kept {
+        let mut full = vec![out.gm.root.clone()];
+        full.extend(path.iter().cloned());
+        let item = out.gm.items.get(&full)?;
+        if !item.generics.is_empty() {
+            continue;
+        }
+        let ty = reg.resolve(*kept_id)?;
+        let encs = valid_encodings(reg, *kept_id, seed, encodings.max(6));
+        match &ty.type_def {
+            TypeDef::Composite(c) if !c.fields.is_empty() => {
+                if encs.is_empty() {
+                    continue;
+                }
+                let name = format!("VStandalone_{kept_id}");
+                items.push_str(&build(&name, &c.fields)?);
+                items.push(' ');
+                checks.push((*kept_id, format!("{}::{name}", out.gm.root), encs));
+            }
+            TypeDef::Variant(v) => {
+                for var in &v.variants {
+                    if var.fields.is_empty() {
+                        continue;
+                    }
+                    let payloads: Vec<Vec<u8>> = encs
+                        .iter()
+                        .filter(|e| e.first() == Some(&var.index))
+                        .map(|e| e[1..].to_vec())
+                        .collect();
+                    if payloads.is_empty() {
+                        continue;
+                    }
+                    let name = format!("VStandalone_{kept_id}_{}", var.index);
+                    items.push_str(&build(&name, &var.fields)?);
+                    items.push(' ');
+                    checks.push((*kept_id, format!("{}::{name}", out.gm.root), payloads));
+                }
+            }
+            _ => {}
+        }
+    }
+    Some((items, checks))
+}
+
+pub fn make_cases_ext(seed: u64, stream: u64, n: usize, cf_only: bool, encodings: usize, standalone_structs: bool) -> (Vec<ProbeCase>, BTreeMap<String, u64>) {
     let mut out = vec![];
     let mut counters: BTreeMap<String, u64> = BTreeMap::new();
     let mut k = 0u64;
@@ -695,9 +773,25 @@ pub fn make_cases(seed: u64, stream: u64, n: usize, cf_only: bool, encodings: us
         for l in &case.gen.labels {
             *counters.entry(format!("label:{l}")).or_insert(0) += 1;
         }
+        let mut tokens = o.tokens.clone();
+        if standalone_structs {
+            let Some((items, st_checks)) = standalone(&reg, &spec, &o, mix(&[seed, k, 18]), encodings) else {
+                *counters.entry("standalone_api_failed".into()).or_insert(0) += 1;
+                continue;
+            };
+            if st_checks.is_empty() {
+                *counters.entry("no_standalone_struct_with_encodings".into()).or_insert(0) += 1;
+                continue;
+            }
+            let marker = format!("use super :: {} ;", o.gm.root);
+            let Some(at) = tokens.find(&marker) else { continue };
+            tokens.insert_str(at + marker.len(), &format!(" {items} "));
+            *counters.entry("standalone_structs".into()).or_insert(0) += st_checks.len() as u64;
+            checks = st_checks;
+        }
         out.push(ProbeCase {
             name: format!("case_{}", out.len()),
-            tokens: o.tokens.clone(),
+            tokens,
             checks,
             decoded: json!({"program": case.gen.prog.to_text(), "settings": spec.to_json(), "registry": registry_json(&reg)}),
         });
